@@ -224,3 +224,11 @@ MUTANTS += [
  {"id": "c19-hardcoded-name", "prop": "C19", "file": "adcgen/groundstate.py", "old": "        tensor_name = f\"{tensor_names.gs_amplitude}{order}\"", "new": "        tensor_name = f\"t{order}\""},
  {"id": "c19-set-iteration", "prop": "C19", "file": _EC, "old": "        for s in self.contracted:\n            if (key := s.space_and_spin) not in contracted:\n                contracted[key] = []\n            contracted[key].append(s)\n        used = {}", "new": "        for s in set(self.contracted):\n            if (key := s.space_and_spin) not in contracted:\n                contracted[key] = []\n            contracted[key].append(s)\n        used = {}"},
 ]
+_FU = "adcgen/func.py"
+MUTANTS += [
+ {"id": "c18-denominator-kind", "prop": "C18", "file": _FU, "old": "            elif name in (tensor_names.coulomb, tensor_names.sym_orb_denom):", "new": "            elif name == tensor_names.coulomb:"},
+ {"id": "c18-spin-label", "prop": "C18", "file": _FU, "old": "                idx.extend(get_symbols(names[-1], spin[0]))", "new": "                idx.extend(get_symbols(names[0], spin[0]))"},
+ {"id": "c18-exponent-lost", "prop": "C18", "file": _FU, "old": "        return Pow(base, exponent)\n\n    def import_obj", "new": "        return base\n\n    def import_obj"},
+ {"id": "c18-index-latex", "prop": "C18", "file": "adcgen/indices.py", "old": "            spin = \"alpha\" if spin == \"a\" else \"beta\"", "new": "            spin = \"alpha\""},
+ {"id": "c18-sign", "prop": "C18", "file": _FU, "old": "        sympy_term = -1 if sign == '-' else +1", "new": "        sympy_term = +1"},
+]
